@@ -215,9 +215,7 @@ def moveOut (c : Cfg) (io : Nat → Fault) (st : St) : St :=
 def closeOut (c : Cfg) (io : Nat → Fault) (st : St) : St :=
   if st.hasOut = false then st
   else
-    let st1 := if c.gzip then onOut io st fileGzClose else st
-    let st2 := onOut io st1 fileFsync
-    let st3 := closeFd io st2
+    let st3 := closeFd io (syncOut c io st)     -- gzip member close, fsync, close
     if st3.status ≠ .running then st3
     else if c.workDir = false then clearOut st3
     else moveOut c io st3
